@@ -31,6 +31,9 @@ pub struct RegisteredInstanceInfo {
     pub instance_handle: InstanceHandle,
     pub last_write_time: Option<Time>,
     pub samples: VecDeque<i64>,
+    /// False once the instance has been unregistered. The record is kept because `samples` still
+    /// accounts for the changes of the instance held in the history cache.
+    pub registered: bool,
 }
 
 #[derive(Default)]
@@ -67,6 +70,31 @@ impl<T: RtpsWriter> DataWriterEntity<T> {
         }
     }
 
+    /// Checks the optional `handle` argument of write/dispose/unregister against the instance the
+    /// key of the sample identifies.
+    pub fn check_instance_handle(
+        &self,
+        sample_instance_handle: InstanceHandle,
+        handle: Option<InstanceHandle>,
+    ) -> DdsResult<()> {
+        match handle {
+            Some(h) if h != sample_instance_handle => {
+                if self
+                    .registered_instance_info
+                    .iter()
+                    .any(|x| x.instance_handle == h && x.registered)
+                {
+                    Err(DdsError::PreconditionNotMet(String::from(
+                        "Handle corresponds to a different instance than the one of the sample",
+                    )))
+                } else {
+                    Err(DdsError::BadParameter)
+                }
+            }
+            _ => Ok(()),
+        }
+    }
+
     pub fn write_w_timestamp(
         &mut self,
         sample_instance_handle: InstanceHandle,
@@ -76,20 +104,22 @@ impl<T: RtpsWriter> DataWriterEntity<T> {
         message_writer: &(impl WriteMessage + ?Sized),
         runtime: &impl DdsRuntime,
     ) -> DdsResult<()> {
-        if !self
+        if let Some(instance_info) = self
             .registered_instance_info
-            .iter()
-            .any(|x| x.instance_handle == sample_instance_handle)
+            .iter_mut()
+            .find(|x| x.instance_handle == sample_instance_handle)
         {
-            if self.registered_instance_info.len() < self.qos.resource_limits.max_instances {
-                self.registered_instance_info.push(RegisteredInstanceInfo {
-                    instance_handle: sample_instance_handle,
-                    last_write_time: None,
-                    samples: VecDeque::new(),
-                });
-            } else {
-                return Err(DdsError::OutOfResources);
-            }
+            // Writing an unregistered instance registers it again
+            instance_info.registered = true;
+        } else if self.registered_instance_info.len() < self.qos.resource_limits.max_instances {
+            self.registered_instance_info.push(RegisteredInstanceInfo {
+                instance_handle: sample_instance_handle,
+                last_write_time: None,
+                samples: VecDeque::new(),
+                registered: true,
+            });
+        } else {
+            return Err(DdsError::OutOfResources);
         }
 
         if let Length::Limited(max_samples_per_instance) =
@@ -171,6 +201,7 @@ impl<T: RtpsWriter> DataWriterEntity<T> {
     pub fn dispose_w_timestamp(
         &mut self,
         dynamic_data: &DynamicData<'static>,
+        handle: Option<InstanceHandle>,
         type_support: &DynamicType<'static>,
         timestamp: Time,
         message_writer: &(impl WriteMessage + ?Sized),
@@ -188,11 +219,12 @@ impl<T: RtpsWriter> DataWriterEntity<T> {
         }
 
         let instance_handle = get_instance_handle_from_key_holder_data(&key_holder_data)?;
+        self.check_instance_handle(instance_handle, handle)?;
 
         let Some(instance_info) = self
             .registered_instance_info
             .iter_mut()
-            .find(|x| x.instance_handle == instance_handle)
+            .find(|x| x.instance_handle == instance_handle && x.registered)
         else {
             return Err(DdsError::BadParameter);
         };
@@ -242,11 +274,13 @@ impl<T: RtpsWriter> DataWriterEntity<T> {
             .find(|x| x.instance_handle == instance_handle)
         {
             instance_info.last_write_time = Some(timestamp);
+            instance_info.registered = true;
         } else if self.registered_instance_info.len() < self.qos.resource_limits.max_instances {
             self.registered_instance_info.push(RegisteredInstanceInfo {
                 instance_handle,
                 last_write_time: Some(timestamp),
                 samples: VecDeque::new(),
+                registered: true,
             });
         } else {
             return Err(DdsError::OutOfResources);
@@ -258,6 +292,7 @@ impl<T: RtpsWriter> DataWriterEntity<T> {
     pub fn unregister_w_timestamp(
         &mut self,
         dynamic_data: &DynamicData<'static>,
+        handle: Option<InstanceHandle>,
         type_support: &DynamicType<'static>,
         timestamp: Time,
         message_writer: &(impl WriteMessage + ?Sized),
@@ -275,15 +310,17 @@ impl<T: RtpsWriter> DataWriterEntity<T> {
         }
 
         let instance_handle = get_instance_handle_from_key_holder_data(&key_holder_data)?;
+        self.check_instance_handle(instance_handle, handle)?;
         let Some(instance_info) = self
             .registered_instance_info
             .iter_mut()
-            .find(|x| x.instance_handle == instance_handle)
+            .find(|x| x.instance_handle == instance_handle && x.registered)
         else {
             return Err(DdsError::BadParameter);
         };
 
         instance_info.last_write_time = None;
+        instance_info.registered = false;
 
         let serialized_key =
             serialize(key_holder_data.as_dynamic_data(), &self.qos.representation)?;
